@@ -811,6 +811,22 @@ pub mod verif_hooks {
         }
     }
 
+    impl FrameReader {
+        /// An `ActorReadHalf::Regular` over the read half of a real TCP connection (the variant
+        /// whose `read_n_bytes` first awaits `readable()`).
+        pub fn tcp(read: OwnedReadHalf) -> Self {
+            Self(ActorReadHalf::Regular(read))
+        }
+
+        /// The TCP read half back (to count what the reader left unread).
+        pub fn into_tcp(self) -> Option<OwnedReadHalf> {
+            match self.0 {
+                ActorReadHalf::Regular(read) => Some(read),
+                _ => None,
+            }
+        }
+    }
+
     /// `encode_network_message`
     pub fn encode(msg: &crate::protocol::NetworkMessage, buf: &mut Vec<u8>) {
         encode_network_message(msg, buf)
